@@ -741,6 +741,28 @@ func (e *Exec) specCall(c *ast.CallExpr, env *SpecEnv) (Val, types.Type) {
 				return v, tInt
 			}
 			return iv("0"), tInt
+		case "recvd":
+			name := exprText(c.Args[0])
+			if v, ok := e.st.vars["recvd:"+name]; ok {
+				return v, tInt
+			}
+			return iv("0"), tInt
+		case "recvval":
+			name := exprText(c.Args[0])
+			_, t := e.evalSpec1(c.Args[0], env)
+			var et types.Type
+			if t != nil {
+				if ch, ok := t.Underlying().(*types.Chan); ok {
+					et = ch.Elem()
+				}
+			}
+			if v, ok := e.st.vars["recvval:"+name]; ok {
+				return v, et
+			}
+			if et == nil {
+				return e.specErr("recvval(%s): not a channel", name)
+			}
+			return e.havocVal("norecv", et), et
 		case "sentval":
 			// sentval(ch): the last value sent on ch by this function (arbitrary on paths where nothing was sent)
 			name := exprText(c.Args[0])
